@@ -1,10 +1,10 @@
 CONSTANTS
   P = 46337
-  Rs = {1, 2, 3}
-  Offs = {0, 1, 2, 3}
-  LimIdx = {1, 2, 3, 4, 5, 6, 7, 8}
-  Ks = {0, 1, 2, 3, 4, 5, 6}
-  Warm = {"none"}
+  Rs = {1, 2}
+  Offs = {0}
+  LimIdx = {2, 5, 7}
+  Ks = {0, 1, 3}
+  Warm = {"integral", "trunc"}
 INIT Init
 NEXT Next
 CHECK_DEADLOCK FALSE
